@@ -88,16 +88,22 @@ def _make(name, modk, kwargs):
     BF, BR = _classes()
     stubs.install((BF, 'uniform', stubs.s_uniform), (BF, 'np', stubs.numpy_shim_light), (BF, 'float', ops.sfloat))
     cls = getattr(BF if modk == 'BF' else BR, name)
-    if 'XinSheYang' not in name:
+    def other_object(delta):
         # state that survives between uses: ANOTHER object of the same class (another dimension where the constructor
-        # takes one) was created and used earlier in the same process
+        # takes one) is created and used in the same process -- one before and one AFTER the object under test
+        if 'XinSheYang' in name:
+            return None
         try:
             from artap.individual import Individual
-            other = cls(**dict(kwargs, dimension=kwargs['dimension'] + 1)) if 'dimension' in kwargs else cls(**kwargs)
-            other.evaluate(Individual([0.5 * (p['bounds'][0] + p['bounds'][1]) for p in other.parameters]))
+            o = cls(**dict(kwargs, dimension=max(1, kwargs['dimension'] + delta))) if 'dimension' in kwargs else cls(**kwargs)
+            o.evaluate(Individual([0.5 * (p['bounds'][0] + p['bounds'][1]) for p in o.parameters]))
+            return o
         except Exception:
-            pass
-    return cls(**kwargs)
+            return None
+    before = other_object(+1)
+    prob = cls(**kwargs)
+    prob._symx_keep_alive = (before, other_object(+3), other_object(-1))
+    return prob
 
 
 def _direction(prob):
